@@ -159,24 +159,19 @@ def w_histories(jobs):
     return [record_history(*j) for j in jobs]
 
 
-def run(rep, tier, seed):
+def explore(rep, cfg, do_paths, max_keys, report):
+    """Model-check one MC_Ns instance, then replay its graph: all paths to depth 4 (optional) and the product
+    exploration of (abstract state x alias partition)."""
     wd = workdir(PID, "mc", wipe=True)
-    cfg = "MC_Ns3x.cfg" if tier == "quick" else "MC_Ns3xy.cfg"
     out = os.path.join(wd, "mc.out")
-    r = run_tlc("Metapype", cfg=os.path.join(SPEC, cfg), stdout_path=out, timeout=1500)
+    r = run_tlc("Metapype", cfg=os.path.join(SPEC, cfg), stdout_path=out, timeout=2400)
     if not r.ok or r.invariant_violated or r.action_prop_violated:
         raise MachineryError(f"{cfg}: the specification violates its own properties:\n" + r.out[-2000:])
     rep.add_tlc(r, cfg)
-    if tier == "thorough":
-        r4 = run_tlc("Metapype", cfg=os.path.join(SPEC, "MC_Ns4xy.cfg"), timeout=2400)
-        if not r4.ok or r4.invariant_violated or r4.action_prop_violated:
-            raise MachineryError("MC_Ns4xy: the specification violates its own properties:\n" + r4.out[-2000:])
-        rep.add_tlc(r4, "MC_Ns4xy.cfg (Frame, NsEffect only)")
     T, Q = load_log(out)
     os.remove(out)
     states, graph = {}, {}
     T2 = [t for t in T if t["k"] == "T"]
-    # states come from the S lines; load_log keeps only T/Q, so derive states from transitions
     for t in T2:
         for s in (t["from"], t["to"]):
             k = canon(s, FIELDS)
@@ -190,27 +185,21 @@ def run(rep, tier, seed):
     opcount = {}
     for t in T2:
         opcount[t["op"]["name"]] = opcount.get(t["op"]["name"], 0) + 1
-    rep.notes["model_transitions_by_action"] = opcount
     if set(opcount) != {"add_child", "remove_child", "add_namespace", "remove_namespace"}:
         raise MachineryError(f"vacuous model: {opcount}")
     inits = [k for k, s in states.items() if all(len(x) == 0 for x in s["kids"]) and all(len(x) == 0 for x in s["ns"])]
     G.update(graph=graph, states=states)
-
-    def report(key, det, replay):
-        rep.violation(f"{PID}:{key}", det[:500], replay)
-
-    # (a) all paths to depth d
-    depth = 4 if tier == "quick" else 4
-    tasks = [(ik, depth, ei) for ik in inits for ei in range(len(graph[ik]))]
-    res = parallel(w_paths, tasks, chunk=1)
-    nP = sum(x[0] for x in res)
-    div = sum(x[2] for x in res)
-    for x in res:
-        for key, det, replay in x[1]:
-            report(key + ":path", det, replay)
-    rep.notes["paths_replayed"] = {"depth": depth, "count": nP, "unspecified_divergences": div}
-
-    # (b) product exploration of (abstract state x alias partition)
+    info = {"model_transitions_by_action": opcount}
+    nP = 0
+    if do_paths:
+        depth = 4
+        tasks = [(ik, depth, ei) for ik in inits for ei in range(len(graph[ik]))]
+        res = parallel(w_paths, tasks, chunk=1)
+        nP = sum(x[0] for x in res)
+        for x in res:
+            for key, det, replay in x[1]:
+                report(key + ":path", det, replay)
+        info["paths_replayed"] = {"depth": depth, "count": nP, "unspecified_divergences": sum(x[2] for x in res)}
     seen = {}
     frontier = []
     for ik in inits:
@@ -219,7 +208,6 @@ def run(rep, tier, seed):
         frontier.append((ik, ()))
     applied = 0
     level = 0
-    max_keys = 4000 if tier == "quick" else 200000
     while frontier and len(seen) < max_keys:
         level += 1
         results = [x for chunk in parallel(w_expand, frontier) for x in chunk]
@@ -235,9 +223,30 @@ def run(rep, tier, seed):
             if (tk, part) not in seen:
                 seen[(tk, part)] = path
                 frontier.append((ik, path))
-    rep.notes["product_exploration"] = {"state_x_alias_partition_keys": len(seen), "operations_applied": applied,
-                                        "bfs_levels": level, "complete": not frontier}
-    rep.sample({"path": [e[1] for e in max(seen.values(), key=len)]})
+    info["product_exploration"] = {"state_x_alias_partition_keys": len(seen), "operations_applied": applied, "bfs_levels": level, "complete": not frontier}
+    rep.notes.setdefault("explorations", {})[cfg] = info
+    rep.sample({"config": cfg, "path": [e[1] for e in max(seen.values(), key=len)]})
+    return nP, applied, len(seen)
+
+
+def run(rep, tier, seed):
+    def report(key, det, replay):
+        rep.violation(f"{PID}:{key}", det[:500], replay)
+
+    if tier == "quick":
+        plan = [("MC_Ns3x.cfg", True, 4000)]
+    else:
+        plan = [("MC_Ns3xy.cfg", True, 200000), ("MC_Ns4x.cfg", False, 60000)]
+        r4 = run_tlc("Metapype", cfg=os.path.join(SPEC, "MC_Ns4xy.cfg"), timeout=2400)
+        if not r4.ok or r4.invariant_violated or r4.action_prop_violated:
+            raise MachineryError("MC_Ns4xy: the specification violates its own properties:\n" + r4.out[-2000:])
+        rep.add_tlc(r4, "MC_Ns4xy.cfg (Frame, NsEffect only)")
+    nP = applied = nkeys = 0
+    for cfg, do_paths, cap in plan:
+        a1, a2, a3 = explore(rep, cfg, do_paths, cap, report)
+        nP += a1
+        applied += a2
+        nkeys += a3
 
     # (c) code -> spec
     ntr, nst = (80, 120) if tier == "quick" else (800, 250)
@@ -260,7 +269,7 @@ def run(rep, tier, seed):
     from harness import suite
     suite.run_for(rep, "C13")
     rep.cov["evaluations"] = nP + applied + nev
-    rep.cov["distinct_nontrivial"] = len(seen)
+    rep.cov["distinct_nontrivial"] = nkeys
     rep.cov["rule"] = "distinct = reachable (abstract namespace state, dict-alias partition) pairs of the implementation, each expanded with every operation TLC's graph allows"
     rep.assumptions += ["namespace maps hold prefixed bindings only; operations are attach, detach, declare, re-declare, remove",
                         "what attach does to maps strictly below the attached child is modelled for generation but not judged"]
